@@ -70,14 +70,18 @@ class Harness:
 
     # ------------------------------------------------------------ reference
     def m_read(self, k):
-        if k == PARTNER:
-            k = SYNC  # the alias mirrors the canonical variable in every layer
+        partner = k == PARTNER
+        if partner:
+            k = SYNC  # the alias mirrors the canonical variable wherever the `sync=` mechanism runs:
+            # assignments and swaps - an alias overlay is a plain dict layer and mirrors nothing
         # documented layering: overlays (innermost first) shadow swaps (innermost first) shadow global
         for kind, d in reversed(self.scopes):
-            if kind == "overlay" and k in d:
+            if kind == "overlay" and k in d and not partner:
                 return ABSENT if d[k] == DEL else d[k]
         for kind, d in reversed(self.scopes):
             if kind == "swap" and k in d:
+                if partner and d[k] == DEL:
+                    continue  # a DELETE_VAR mask is not mirrored into the sync partner
                 return ABSENT if d[k] == DEL else d[k]
         if k in self.base:
             return self.base[k]
@@ -87,13 +91,16 @@ class Harness:
 
     def m_explicit(self, k):
         """Value children receive: only explicitly set variables (defaults are not exported)."""
-        if k == PARTNER:
+        partner = k == PARTNER
+        if partner:
             k = SYNC
         for kind, d in reversed(self.scopes):
-            if kind == "overlay" and k in d:
+            if kind == "overlay" and k in d and not partner:
                 return ABSENT if d[k] == DEL else d[k]
         for kind, d in reversed(self.scopes):
             if kind == "swap" and k in d:
+                if partner and d[k] == DEL:
+                    continue
                 return ABSENT if d[k] == DEL else d[k]
         return self.base.get(k, ABSENT)
 
@@ -116,8 +123,8 @@ class Harness:
                 continue
             if ev[0] in ("set", "del") and ev[1] in sk:
                 continue  # unspecified by the statement
-            if ev[0] == "del" and ev[1] not in self.base:
-                continue
+            if ev[0] == "del" and (ev[1] not in self.base or ev[1] == SYNC):
+                continue  # (deleting a synced variable does not touch its alias: unspecified, not explored)
             if ev[0] == "ovset" and (not self.scopes or self.scopes[-1][0] != "overlay" or any(ev[1] in d for _, d in self.scopes[:-1])):
                 continue
             out.append(ev)
